@@ -78,3 +78,54 @@ def rx_str(case):
         return " + ".join((k if v == 1 else f"{v}{k}") for k, v in sorted(d.items())) or "0"
 
     return [f"{side(r)} >> {side(p)} ({rule})" for r, p, rule in case["rx"]]
+
+
+# ------------------------------------------------------------------ networks reached by in-place edits
+def edit_ops_strategy(species, max_coef=2, rules=("r",), max_ops=5, allow_empty_side=True):
+    rxn = rxn_strategy(list(species), max_coef, allow_empty_side, list(rules), 2)
+    op = st.one_of(
+        st.tuples(st.just("swap"), st.integers(0, 7), rxn).map(list),
+        st.tuples(st.just("swap"), st.integers(0, 7), rxn).map(list),
+        st.tuples(st.just("add"), rxn).map(list),
+        st.tuples(st.just("rm"), st.integers(0, 7)).map(list),
+    )
+    return st.lists(op, min_size=1, max_size=max_ops)
+
+
+def edited_net_strategy(max_species=4, max_rxn=4, max_coef=2, rules=("r",), allow_empty_side=True):
+    """{'rx': initial reactions, 'ops': in-place edits}: the network under test is the *edited object*."""
+    sp = SPECIES[:max_species]
+    rxn = rxn_strategy(sp, max_coef, allow_empty_side, list(rules), 2)
+    return st.fixed_dictionaries(dict(rx=st.lists(rxn, min_size=2, max_size=max_rxn), ops=edit_ops_strategy(sp, max_coef, rules, 5, allow_empty_side)))
+
+
+def build_edited(case, touch):
+    """Build the initial network, call touch(H) (an analysis that may leave state behind), apply the edits in place
+    calling touch(H) after every second edit, and return (H, final reaction list in H.edges order).
+    'swap' = remove one reaction and add another (often count-preserving)."""
+    H = build({"rx": case["rx"]})
+    model = {e.id: [dict(e.reactants.items()), dict(e.products.items()), e.rule] for e in H.edge_list()}
+    touch(H)
+    preserved = False
+    for k, op in enumerate(case["ops"]):
+        before = (len(H.species), len(H.edges))
+        if op[0] == "swap" and model:
+            eid = sorted(model)[op[1] % len(model)]
+            H.remove_rxn(eid)
+            del model[eid]
+            r, p, rule = op[2]
+            e = H.add_rxn(dict(r), dict(p), rule=rule)
+            model[e.id] = [dict(r), dict(p), rule]
+        elif op[0] == "add":
+            r, p, rule = op[1]
+            e = H.add_rxn(dict(r), dict(p), rule=rule)
+            model[e.id] = [dict(r), dict(p), rule]
+        elif op[0] == "rm" and len(model) > 1:
+            eid = sorted(model)[op[1] % len(model)]
+            H.remove_rxn(eid)
+            del model[eid]
+        preserved |= before == (len(H.species), len(H.edges)) and op[0] == "swap"
+        if k % 2 == 1:
+            touch(H)
+    final = [model[eid] for eid in H.edges]
+    return H, final, preserved
